@@ -224,6 +224,17 @@ pub fn operand_alphabet() -> (Vec<D>, Vec<D>) {
         [0., 0., 0., 0., 23., 59., 59., 999., 999., 1000.],
         [0., 0., 0., 1., 0., 0., 86400., 0., 0., 0.],
         [0., 0., 0., 0., 0., 1., 0., 60000., 0., 0.],
+        // each field exactly at its carry threshold next to a non-zero larger field (and the same one below / above)
+        [0., 0., 0., 1., 24., 0., 0., 0., 0., 0.],
+        [0., 0., 0., 3., 24., 30., 0., 0., 0., 0.],
+        [0., 0., 0., 1., 23., 0., 0., 0., 0., 0.],
+        [0., 0., 0., 0., 24., 0., 0., 0., 0., 0.],
+        [0., 0., 0., 0., 1., 60., 0., 0., 0., 0.],
+        [0., 0., 0., 0., 0., 1., 60., 0., 0., 0.],
+        [0., 0., 0., 0., 0., 0., 1., 1000., 0., 0.],
+        [0., 0., 0., 0., 0., 0., 0., 1., 1000., 0.],
+        [0., 0., 0., 0., 0., 0., 0., 0., 1., 1000.],
+        [0., 0., 0., 0., 0., 0., 0., 0., 1., 999.],
         // within a second of the limit 2^53 s: balanced to a sub-second unit, the exact total is in range
         // but the double nearest to the large field is at the limit (must be a RangeError)
         [0., 0., 0., 0., 0., 0., 9007199254740991., 0., 0., 999_999_999.],
